@@ -303,10 +303,42 @@ RAW_WRITERS = {
 }
 
 
+def class_callers(repo):
+    """method name -> set of methods of class Circuit that call it through `self.`"""
+    callers = {}
+    for fi in repo.methods(FILE, "Circuit"):
+        for n in walk_no_nested(fi.node):
+            if isinstance(n, ast.Call) and isinstance(n.func, ast.Attribute) and dotted(n.func.value) == "self":
+                callers.setdefault(n.func.attr, set()).add(fi.node.name)
+    return callers
+
+
+def effective_owners(m, callers, depth=0):
+    """A private helper (leading underscore) acts on behalf of its callers: the public methods it is reached from."""
+    if not m.startswith("_") or m.startswith("__") or depth > 5:
+        return {m}
+    out = set()
+    for c in callers.get(m, ()):
+        out |= effective_owners(c, callers, depth + 1)
+    return out or {m}
+
+
 def check_who_may_mutate(chk, repo):
     n_sites = 0
+    callers = class_callers(repo)
+
+    class _In:
+        """`m in allowed` where a private helper counts as its public callers"""
+
+        def __init__(self, m):
+            self.owners = effective_owners(m, callers)
+
+        def within(self, allowed):
+            return self.owners <= set(allowed)
+
     for fi in repo.methods(FILE, "Circuit"):
         m = fi.node.name
+        who = _In(m)
         for n in walk_no_nested(fi.node):
             if isinstance(n, ast.Call) and isinstance(n.func, ast.Attribute):
                 recv = dotted(n.func.value)
@@ -314,7 +346,7 @@ def check_who_may_mutate(chk, repo):
                     for cls, (names, allowed) in RAW_WRITERS.items():
                         if n.func.attr in names:
                             n_sites += 1
-                            chk.ob("C07.W.who-may-mutate", f"Circuit.{m}::self.graph.{n.func.attr}", m in allowed, file=FILE, func=f"Circuit.{m}", line=n.lineno,
+                            chk.ob("C07.W.who-may-mutate", f"Circuit.{m}::self.graph.{n.func.attr}", who.within(allowed), file=FILE, func=f"Circuit.{m}", line=n.lineno,
                                    fact={"writer_class": cls, "method": m, "call": norm(n)[:100]}, expect=f"only in {sorted(allowed)}")
                 d = dotted(n.func)
                 if d == "nx.relabel_nodes":
@@ -322,7 +354,7 @@ def check_who_may_mutate(chk, repo):
                     inplace = cp is not None and not (isinstance(cp, ast.Constant) and cp.value is True)
                     if inplace:
                         n_sites += 1
-                        chk.ob("C07.W.who-may-mutate", f"Circuit.{m}::nx.relabel_nodes(copy=False)", m == "relabel", file=FILE, func=f"Circuit.{m}", line=n.lineno,
+                        chk.ob("C07.W.who-may-mutate", f"Circuit.{m}::nx.relabel_nodes(copy=False)", who.within({"relabel"}), file=FILE, func=f"Circuit.{m}", line=n.lineno,
                                fact={"method": m}, expect="only in relabel")
             # attribute-dict stores
             targets = []
@@ -337,11 +369,11 @@ def check_who_may_mutate(chk, repo):
                         n_sites += 1
                         key = t.slice.value
                         allowed = {"type": {"set_type"}, "output": {"set_output"}}.get(key, set())
-                        chk.ob("C07.W.who-may-mutate", f"Circuit.{m}::nodes[...][{key!r}] store", m in allowed, file=FILE, func=f"Circuit.{m}", line=n.lineno,
+                        chk.ob("C07.W.who-may-mutate", f"Circuit.{m}::nodes[...][{key!r}] store", who.within(allowed), file=FILE, func=f"Circuit.{m}", line=n.lineno,
                                fact={"method": m, "attribute": key}, expect=f"only in {sorted(allowed)}")
                     elif base == "self.blackboxes":
                         n_sites += 1
-                        chk.ob("C07.W.who-may-mutate", f"Circuit.{m}::registry store", m in ("add_blackbox", "add_subcircuit", "fill_blackbox"), file=FILE, func=f"Circuit.{m}", line=n.lineno,
+                        chk.ob("C07.W.who-may-mutate", f"Circuit.{m}::registry store", who.within({"add_blackbox", "add_subcircuit", "fill_blackbox"}), file=FILE, func=f"Circuit.{m}", line=n.lineno,
                                fact={"method": m}, expect="only in add_blackbox/add_subcircuit/fill_blackbox")
                 elif isinstance(t, ast.Attribute) and dotted(t) in ("self.graph", "self.blackboxes") and m != "__init__":
                     n_sites += 1
